@@ -3,7 +3,7 @@ Bridge C07: the facts regenerated from the CURRENT source of the ammo decoders (
 check run by /verif/gen, area `ammodec`) are the ones the byte-level model `Pandora.Model.C07` is written for.
 
 A change of the read primitive (ReadString → ReadLine / ReadBytes / ReadSlice, another delimiter, a Scanner with its own
-buffer or split function, a Reader in place of the Scanner), of the trim / cut / split functions applied to a line, of a
+buffer or split function, a Reader in place of the Scanner), of a
 separator, bracket, length bound, of the method or URL prefix given to `Ammo.Setup`, of the origin of the header map stored
 in the ammo (a clone of the accumulator), or of the json tags of `entity` changes the regenerated text and breaks a lemma
 here — and with it the build of `Pandora.Props.C07`, which imports this file.
@@ -30,12 +30,6 @@ theorem maxTok_eq : uriReader = .scanner maxTok := rfl
 
 /-! ### what is done with a line -/
 
-/-- `readLine`: `TrimSpace`, then `Cut` at the first blank (model: `uriLine` = `trimSpace`, `cut SP`);
-`readBlock`, `rawDecoder.Scan`: `TrimSpace` (model: `trimSpace` of the line with its newline) -/
-theorem lineFuncs_eq :
-    uriLineFuncs = ["strings.Cut", "strings.TrimSpace"] ∧ uripostLineFuncs = ["strings.TrimSpace"]
-      ∧ rawLineFuncs = ["strings.TrimSpace"] := ⟨rfl, rfl, rfl⟩
-
 /-- a line whose first byte (after trimming) is `[` is a header line; target and tag are separated by one blank -/
 theorem marks_eq : uriHeaderMark = LBR.toNat ∧ uripostHeaderMark = LBR.toNat ∧ uriTagSep = [SP] := by decide
 
@@ -48,21 +42,16 @@ theorem headerInit_eq : uriHeaderInit = "_.Clone()" ∧ uripostHeaderInit = "_.C
 
 /-! ### `util.DecodeHeader`, `uripost.DecodeURI`, `raw.DecodeHeader` -/
 
-/-- `decodeHeader`: `len(h) < 3 || h[0] != '[' || h[len(h)-1] != ']'`, `h[1:len(h)-1]`, `Cut(h, ":")`, `TrimSpace` of both parts -/
-theorem decodeHeader_facts :
-    hdrMinLen = 3 ∧ hdrOpen = LBR.toNat ∧ hdrClose = RBR.toNat ∧ hdrSep = [COLON]
-      ∧ hdrSlices = ["_[1 : len(_)-1]"] ∧ hdrFuncs = ["strings.Cut", "strings.TrimSpace"] := by
-  refine ⟨rfl, by decide, by decide, by decide, rfl, rfl⟩
+/-- `decodeHeader`: `len(h) < 3 || h[0] != '[' || h[len(h)-1] != ']'`, the separator `:` -/
+theorem decodeHeader_facts : hdrMinLen = 3 ∧ hdrOpen = LBR.toNat ∧ hdrClose = RBR.toNat ∧ hdrSep = [COLON] := by
+  refine ⟨rfl, by decide, by decide, by decide⟩
 
-/-- `decodeURI`: `Split(s, " ")`, fewer than 2 parts is an error, `Atoi(parts[0])`, `parts[1]`, `Join(parts[2:], " ")` -/
-theorem decodeURI_facts :
-    decodeURISplitSep = [SP] ∧ decodeURIJoinSep = [SP] ∧ decodeURIMinParts = 2
-      ∧ decodeURIIndex = ["_[0]", "_[1]", "_[2:]"] ∧ decodeURIFuncs = ["strconv.Atoi", "strings.Join", "strings.Split"] := by
-  refine ⟨by decide, by decide, rfl, rfl, rfl⟩
-
-/-- `rawDecodeHeader`: `Cut(s, " ")`, `Atoi` of the first part -/
-theorem rawDecodeHeader_facts : rawHeaderSep = [SP] ∧ rawHeaderFuncs = ["strconv.Atoi", "strings.Cut"] := by
+/-- `decodeURI`: the parts are separated (and the tag re-joined) by one blank; fewer than 2 parts is an error -/
+theorem decodeURI_facts : decodeURISep = [SP] ∧ decodeURIMinParts = 2 := by
   refine ⟨by decide, rfl⟩
+
+/-- `rawDecodeHeader`: size and tag are separated by one blank -/
+theorem rawDecodeHeader_facts : rawHeaderSep = [SP] := by decide
 
 /-! ### http/json -/
 
